@@ -5,6 +5,7 @@ package harness
 import (
 	"bytes"
 	"fmt"
+	"io"
 	"os"
 	"path/filepath"
 	"regexp"
@@ -29,6 +30,7 @@ type c07Case struct {
 	How    string `json:"how,omitempty"`   // how the input was produced (classification only)
 	Shape  string `json:"shape,omitempty"` // Target "scale": input family (c07Shapes) ...
 	N      int    `json:"n,omitempty"`     // ... and its smallest size parameter (0 = the shape's default)
+	Deliv  int    `json:"deliv,omitempty"` // scan: how the reader hands the bytes over (deliveryNames)
 }
 
 var (
@@ -95,9 +97,13 @@ type scanned struct {
 	quiet bool // Scan returned false and Err() == nil
 }
 
-func scanAll(in []byte) scanned {
+func scanAll(in []byte, how ...int) scanned {
 	var s scanned
-	sc := seqio.NewAutoScanner(bytes.NewReader(in))
+	var src io.Reader = bytes.NewReader(in)
+	if len(how) > 0 && how[0] != 0 {
+		src = deliver(in, how[0])
+	}
+	sc := seqio.NewAutoScanner(src)
 	for sc.Scan() {
 		s.recs = append(s.recs, sc.Value())
 		if len(s.recs) > 10000 {
@@ -260,7 +266,7 @@ func c07Check(c c07Case) *Violation {
 	switch c.Target {
 	case "scan":
 		var s scanned
-		pi, hung := withWatchdog(len(in), func() { s = scanAll(in) })
+		pi, hung := withWatchdog(len(in), func() { s = scanAll(in, c.Deliv) })
 		if hung {
 			return viol("hang", "%s: scanning %d bytes did not finish within the ceiling", what, len(in))
 		}
@@ -697,12 +703,20 @@ func c07Gen(t *rapid.T) c07Case {
 			mut, h2 = c07MutateText(t, mut)
 			how += "+" + h2
 		}
-		return c07Case{Target: "scan", Input: []byte(mut), CRLF: rapid.IntRange(0, 3).Draw(t, "crlf") == 0, How: how, Trunc: -1}
+		c := c07Case{Target: "scan", Input: []byte(mut), CRLF: rapid.IntRange(0, 3).Draw(t, "crlf") == 0, How: how, Trunc: -1}
+		if len(mut) < 12000 && rapid.IntRange(0, 3).Draw(t, "shortreads") == 0 {
+			c.Deliv = rapid.IntRange(1, len(deliveryNames)-1).Draw(t, "deliv")
+		}
+		return c
 	case 5:
 		// mutated FASTA
 		text := ">a desc\nACGTACGT\nAC\n>b\n\n>c\nNNNN\n"
 		mut, how := c07MutateText(t, text)
-		return c07Case{Target: "scan", Input: []byte(mut), CRLF: rapid.Bool().Draw(t, "crlf"), How: "fasta-" + how, Trunc: -1}
+		c := c07Case{Target: "scan", Input: []byte(mut), CRLF: rapid.Bool().Draw(t, "crlf"), How: "fasta-" + how, Trunc: -1}
+		if len(mut) < 12000 && rapid.IntRange(0, 3).Draw(t, "shortreads") == 0 {
+			c.Deliv = rapid.IntRange(1, len(deliveryNames)-1).Draw(t, "deliv")
+		}
+		return c
 	case 6:
 		// feature table text
 		feats := genGBFeats(t, rapid.IntRange(1, 4).Draw(t, "nf"), 30, false)
@@ -761,6 +775,26 @@ func TestC07(t *testing.T) {
 		}
 	}
 	e.done(exhaustive)
+	// the same truncations through readers that hand the bytes over in other portions (short reads, one byte at a
+	// time, last bytes together with io.EOF)
+	ed := enumPart(t, c07Prop, st, "truncate-deliveries")
+	for _, name := range append(append([]string{}, c07CorpusGB...), c07CorpusFA...) {
+		size := len(corpusFile(name))
+		if size > 10000 {
+			continue
+		}
+		for how := 1; how < len(deliveryNames); how++ {
+			for k := how; k <= size; k += pick(41, 7) {
+				if !ed.try(c07Case{Target: "scan", Corpus: name, Trunc: k, CRLF: (k+how)%2 == 0, How: "truncate", Deliv: how}) {
+					return
+				}
+			}
+			if !ed.try(c07Case{Target: "scan", Corpus: name, Trunc: size, How: "valid", Deliv: how}) {
+				return
+			}
+		}
+	}
+	ed.done(false)
 	// size ladder: cost stays under the ceiling for valid and for garbage input up to 1 MiB
 	e2 := enumPart(t, c07Prop, st, "size-ladder")
 	base := corpusFile("NC_001422.gb")
